@@ -36,6 +36,14 @@ var c18Systems = map[string]resolve.System{"npm": resolve.NPM, "Maven": resolve.
 
 var c18Names = map[string]string{"npm": "pkg-x", "Maven": "org.example:pkg-x", "PyPI": "pkg-x"}
 var c18OtherNames = map[string]string{"npm": "pkg-y", "Maven": "org.example:pkg-y", "PyPI": "pkg-y"}
+// c18NearNames are other packages whose names are close to the queried one: a case variant
+// (npm and Maven names are case-sensitive), a longer and a shorter name, surrounding space.
+var c18NearNames = map[string][]string{
+	"npm":   {"Pkg-X", "pkg-x2", "pkg-", " pkg-x", "@pkg-x/pkg-x"},
+	"Maven": {"org.example:Pkg-x", "org.Example:pkg-x", "org.example:pkg-x2", "org.example:pkg-x:jar", "example:pkg-x"},
+	"PyPI":  {"pkg-x2", "pkg-", " pkg-x", "pkg-x "},
+}
+
 var c18OtherEco = map[string]string{"npm": "PyPI", "Maven": "npm", "PyPI": "Maven"}
 
 const c18NVers = 7
@@ -423,6 +431,17 @@ func c18VariantList() []c18Variant {
 		{name: "explicit_versions_other_package", build: func(eco string, p []c18Event) []c18Affected {
 			o := c18Affected{Eco: eco, Name: c18OtherNames[eco], Versions: []int{0, 1, 2, 3, 4, 5, 6}}
 			return []c18Affected{o, one(eco, c18Names[eco], c18Range{Type: "ECOSYSTEM", Events: p})}
+		}},
+		{name: "near_name_only", build: func(eco string, p []c18Event) []c18Affected {
+			var out []c18Affected
+			for _, n := range c18NearNames[eco] {
+				out = append(out, one(eco, n, c18Range{Type: "ECOSYSTEM", Events: p}))
+			}
+			return out
+		}},
+		{name: "near_names_around", build: func(eco string, p []c18Event) []c18Affected {
+			ns := c18NearNames[eco]
+			return []c18Affected{one(eco, ns[0], c18Range{Type: "ECOSYSTEM", Events: always}), one(eco, c18Names[eco], c18Range{Type: "ECOSYSTEM", Events: p}), {Eco: eco, Name: ns[1], Versions: []int{0, 1, 2, 3, 4, 5, 6}}}
 		}},
 		{name: "same_package_two_entries", build: func(eco string, p []c18Event) []c18Affected {
 			return []c18Affected{one(eco, c18Names[eco], c18Range{Type: "ECOSYSTEM", Events: p}), one(eco, c18Names[eco], c18Range{Type: "ECOSYSTEM", Events: fromFive})}
